@@ -43,9 +43,9 @@ CHECKS = {
          "Trusted: refimpl strict share/input PDU parser.", "DESIGN §6 C11"),
  "C12": ("exploration", "model-based testing: bounded-exhaustive histories over the 11-letter server alphabet against a reference activation automaton, input attempt after every step",
          "Every history up to length 5 (6 thorough) plus biased random histories up to length 60, each on a fresh connected client; after every step the client's emissions, input acceptance (write / try_write) with byte counts, and bitmap callbacks are compared with the automaton written from the property (set-valued where the property is silent).",
-         "Trusted: the 40-line reference automaton and the strict parsers. One PDU per frame only.", "DESIGN §6 C12"),
+         "Trusted: the 40-line reference automaton and the strict parsers. Several PDUs per frame are asserted only while the client is active (there the property determines the outcome).", "DESIGN §6 C12"),
  "C01": ("fault_enumeration", "fault enumeration over the final CredSSP reply through real TLS: exhaustive single-bit flips and truncations of the honest reply, structured forgeries (offsets, wrong keys, other certificate, reflection, re-encoding), classified by the reference CredSSP/NTLM server itself",
-         "Whole NLA handshakes through Connector::connect against an in-process OpenSSL acceptor and reference NTLM/CredSSP server. For every reply that does not prove the session key the call must fail and the server, reading to EOF, must receive zero bytes after the AUTHENTICATE message; for the honest reply the sealed credentials must follow.",
+         "Whole NLA handshakes through Connector::connect against an in-process OpenSSL acceptor and reference NTLM/CredSSP server. For every reply that does not prove the session key the call must fail and the server, reading to EOF, must receive zero bytes after the AUTHENTICATE message; that the honest reply is followed by the credentials is only a guard against a vacuous pass (C03 states that connecting succeeds).",
          "Trusted: refimpl::ntlm verifier and seal model (pinned by MS-NLMP 4.2.4 vectors), OpenSSL. Replies the reference side itself accepts (e.g. a flipped bit in the unchecked version INTEGER, another sequence number under a valid signature) are not required to be refused.", "DESIGN §6 C01"),
  "C02": ("exploration", "bounded-exhaustive negotiation replies x configurations on a scripted transport with a raw-transcript oracle, plus generated whole connections through real TLS with trusted / untrusted certificates",
          "Every low-byte selected-protocol value, every flag byte, every reply type byte, failures, absent data, truncations and extensions for Connector::connect (NLA on/off, certificate checking on/off, restricted admin, blank credentials) and x224::Client::connect (masks 1/2/3, with/without authentication protocol): unless a single offered protocol is selected the call fails and nothing is written after the connection request; otherwise only TLS records follow. TLS sub-lane: raw transcript = request + TLS records; untrusted certificate with checking on gives Err before any TSRequest / RDP byte; CA-signed accepted; untrusted accepted when checking is off.",
